@@ -275,3 +275,19 @@ Example C12_embedding_example :
   | _ => false
   end = true.
 Proof. split; vm_compute; reflexivity. Qed.
+
+(* a DocumentAnnotation of the type system's own WITHOUT any feature (TypeSystem(add_document_annotation_type=False) +
+   create_type, or a descriptor that redeclares it bare): it satisfies the premises, is written (its feature names are not
+   ["language"]), and is read back as declared -- described, without `language`, remembered as redeclared -- not as the default *)
+Definition ex_bare : tsys := mkTS [
+  mkST "a.B" None "uima.tcas.Annotation" [];
+  mkST DOCANN (Some " own ") "uima.tcas.Annotation" [];
+  mkST "b.Meta" None DOCANN [mkSF "language" false None "uima.cas.Integer" None None]] [].
+Example C12_bare_docann_roundtrip :
+  wf_tsb ex_bare = true /\ order_okb [DOCANN; "a.B"; "b.Meta"] (descr_of_ts ex_bare) = true /\
+  descr_of_ts ex_bare = [mkT DOCANN (Some " own ") "uima.tcas.Annotation" []; mkT "a.B" None "uima.tcas.Annotation" [];
+                         mkT "b.Meta" None DOCANN [mkF "language" None "uima.cas.Integer" None None]] /\
+  ts_of_descr [DOCANN; "a.B"; "b.Meta"] (descr_of_ts ex_bare) =
+    Ok (mkTS [mkST DOCANN (Some "own") "uima.tcas.Annotation" []; mkST "a.B" None "uima.tcas.Annotation" [];
+              mkST "b.Meta" None DOCANN [mkSF "language" false None "uima.cas.Integer" None None]] [DOCANN]).
+Proof. repeat split; vm_compute; reflexivity. Qed.
